@@ -18,7 +18,10 @@ LWithCollinear == << <<0, 0>>, <<4, 0>>, <<8, 0>>, <<8, 3>>, <<8, 3>>, <<3, 3>>,
 Sliver == << <<0, 0>>, <<12, 0>>, <<12, 1>>, <<6, 1>>, <<0, 1>> >>
 Star == << <<6, 0>>, <<7, 4>>, <<12, 5>>, <<8, 7>>, <<9, 12>>, <<6, 8>>, <<3, 12>>, <<4, 7>>, <<0, 5>>, <<5, 4>> >>
 Rev(s) == [i \in DOMAIN s |-> s[Len(s) + 1 - i]]
-Polys == <<Octagon, Spiral, LWithCollinear, Sliver, Star, CombN(3, 9), CombN(6, 7), Rev(Spiral),
+\* corners whose two edges have mirrored slopes (the products compared by the slope tests differ in sign only)
+Diamond == << <<6, 0>>, <<12, 6>>, <<6, 12>>, <<0, 6>> >>
+Saw == << <<0, 0>>, <<2, 2>>, <<4, 0>>, <<6, 2>>, <<8, 0>>, <<8, 8>>, <<6, 6>>, <<4, 8>>, <<2, 6>>, <<0, 8>> >>
+Polys == <<Diamond, Saw, Octagon, Spiral, LWithCollinear, Sliver, Star, CombN(3, 9), CombN(6, 7), Rev(Spiral),
            << <<0, 0>>, <<12, 0>>, <<12, 12>>, <<0, 12>> >>, << <<0, 0>>, <<9, 0>>, <<0, 6>> >> >>
 Limits == IF Depth = "thorough" THEN 5..12 \cup {199} ELSE {5, 6, 8, 11}
 Scalings == IF Depth = "thorough" THEN {1, 8, 100} ELSE {1, 8}
